@@ -917,7 +917,7 @@ func chains(x *mon.Ctx) {
 	if err := selfTest(); err != nil {
 		x.HarnessError("%v", err)
 	}
-	n := x.Scale(6000, 80000)
+	n := x.Scale(4000, 80000)
 	for i := 0; i < n; i++ {
 		c := x.Begin("topology #%d recipe=%s (generated from the case PRNG; built with SM2 keys, with mixed key types and, through crypto/x509, with ECDSA keys)", i, recipeName(i))
 		if c == nil {
@@ -956,7 +956,7 @@ func runTopology(c *mon.Case, i int) {
 			return
 		}
 		ecKeys[k], _ = newKey(r, kP256, 0)
-		kind := keyKind(r.Intn(int(nKinds)))
+		kind := []keyKind{kSM2, kSM2, kP256, kP256, kEd25519, kEd25519, kRSA, kRSA, kP384}[r.Intn(9)]
 		if kind == kRSA {
 			if rsaUsed == 3 {
 				kind = kP256
